@@ -1,0 +1,84 @@
+//go:build verif
+
+/*
+Copyright 2021 The Kubernetes Authors.
+
+Licensed under the Apache License, Version 2.0 (the "License");
+you may not use this file except in compliance with the License.
+You may obtain a copy of the License at
+
+    http://www.apache.org/licenses/LICENSE-2.0
+
+Unless required by applicable law or agreed to in writing, software
+distributed under the License is distributed on an "AS IS" BASIS,
+WITHOUT WARRANTIES OR CONDITIONS OF ANY KIND, either express or implied.
+See the License for the specific language governing permissions and
+limitations under the License.
+*/
+
+package test
+
+import (
+	"fmt"
+	"strings"
+
+	corev1 "k8s.io/api/core/v1"
+	"k8s.io/pod-security-admission/api"
+	"k8s.io/pod-security-admission/policy"
+)
+
+// VerifFixture is one published conformance fixture, as the in-memory generators produce it.
+type VerifFixture struct {
+	Level string
+	Minor int
+	Check string // empty for the minimal valid ("base") pods
+	Pass  bool
+	Name  string // file name without extension, as TestFixtures derives it
+	Pod   *corev1.Pod
+}
+
+// VerifFixtures enumerates every fixture for every level and every version v1.0 .. the newest tested
+// version, exactly as TestFixtures does, for the external verification harness. Built only with -tags verif.
+func VerifFixtures() ([]VerifFixture, int, error) {
+	var out []VerifFixture
+	defaultChecks := policy.DefaultChecks()
+	for _, level := range []api.Level{api.LevelBaseline, api.LevelRestricted} {
+		for version := 0; version <= newestMinorVersionToTest; version++ {
+			v := api.MajorMinorVersion(1, version)
+			osNeutralPod, err := GetMinimalValidPod(level, v)
+			if err != nil {
+				return nil, 0, err
+			}
+			out = append(out, VerifFixture{string(level), version, "", true, "base", osNeutralPod})
+			if level == api.LevelRestricted && version >= podOSBasedRestrictionEnabledVersion {
+				linuxPod, err := GetMinimalValidLinuxPod(level, v)
+				if err != nil {
+					return nil, 0, err
+				}
+				out = append(out, VerifFixture{string(level), version, "", true, "base_linux", linuxPod})
+				windowsPod, err := GetMinimalValidWindowsPod(level, v)
+				if err != nil {
+					return nil, 0, err
+				}
+				out = append(out, VerifFixture{string(level), version, "", true, "base_windows", windowsPod})
+			}
+			checkIDs, err := checksForLevelAndVersion(defaultChecks, level, v)
+			if err != nil {
+				return nil, 0, err
+			}
+			for _, checkID := range checkIDs {
+				data, err := getFixtures(fixtureKey{level: level, version: v, check: checkID})
+				if err != nil {
+					return nil, 0, err
+				}
+				for i, pod := range data.pass {
+					out = append(out, VerifFixture{string(level), version, string(checkID), true, fmt.Sprintf("%s%d", strings.ToLower(string(checkID)), i), pod})
+				}
+				for i, pod := range data.fail {
+					out = append(out, VerifFixture{string(level), version, string(checkID), false, fmt.Sprintf("%s%d", strings.ToLower(string(checkID)), i), pod})
+				}
+			}
+		}
+	}
+	return out, newestMinorVersionToTest, nil
+}
